@@ -30,6 +30,7 @@ Fixpoint sim_loop (n fuel : nat) (horizon : Z) (s : sstate) (ob : list obs) : ss
 (* initial tick, then the loop *)
 Definition sim_run (n fuel : nat) (initial horizon : Z) : sstate * list obs * bool :=
   let roots := map fst (l_order (level_of cfg top)) in
-  let '(s1, _, ob) := tick_level cfg devf fuel top initial roots [] (log_tick s_init top initial roots) in
+  let s0 := set_wake s_init top [] in
+  let '(s1, _, ob) := tick_level cfg devf fuel top initial roots [] (log_tick s0 top initial roots) in
   sim_loop n fuel horizon s1 ob.
 End ST.
